@@ -152,18 +152,26 @@ func specLexLess6(a, b [6]int) bool {
 	return false
 }
 
-func VerifC16_DateTimeBefore() {
+func c16DateTimeBefore(sameDay bool) {
 	verifZone(1)
 	a, af := c16Civil("a")
 	b, bf := c16Civil("b")
-	ms := nondetInt("b.ms")
-	verifAssume(ms >= 0 && ms <= 999)
-	b = b.Add(time.Duration(ms) * time.Millisecond) // sub-second parts do not count
+	if sameDay {
+		// (within one calendar day the engine's epoch seconds are exact, not only ordered)
+		verifAssume(af[0] == bf[0] && af[1] == bf[1] && af[2] == bf[2])
+	}
+	ams, ms := nondetInt("a.ms"), nondetInt("b.ms")
+	verifAssume(ams >= 0 && ams <= 999 && ms >= 0 && ms <= 999)
+	a = a.Add(time.Duration(ams) * time.Millisecond) // sub-second parts do not count, on either side
+	b = b.Add(time.Duration(ms) * time.Millisecond)
 	got := DateTime(a).Before(b)
 	verifObserve("before", got)
 	verifAssert(got == specLexLess6(af, bf), "DateTime.Before: exactly when its whole-second timestamp is the smaller of the two")
 	verifReach("c16.datetime.before")
 }
+
+func VerifC16_DateTimeBefore()        { c16DateTimeBefore(false) }
+func VerifC16_DateTimeBeforeSameDay() { c16DateTimeBefore(true) }
 
 // the same across a zone transition: two instants k1 and k2 seconds after a base time on the day of the
 // transition (inside an overlap the civil fields repeat; only the instants order them)
